@@ -125,19 +125,57 @@ def states(A):
         yield {A.a: a, A.b: b, A.c: 3, A.r: 7, A.sp: 0x1000, A.zf: zf, A.END: 0xDEAD0000, A.pc: 0}
 
 
-def check_graph(n, shape_idx, body_idx, cond_idx, alphabet, CONDS=CONDS, merge=False):
+def ref_copy_fold(ssa):
+    """Reference copy folding on a graph in SSA form: for every plain copy x = y between two SSA-renamed variables, every ordinary
+    use of x (sources that are not Phi nodes, addresses of memory destinations) reads y instead. In SSA y has a single definition,
+    which dominates the copy and hence every use of x, so the graph is still valid SSA with the same behaviour; the copy is left in
+    place. This is the state in which IRCFGSimplifierSSA hands a graph to out-of-SSA (after its propagation passes)."""
+    from miasm.expression.expression import ExprMem
+    from miasm.ir.ir import AssignBlock, IRBlock
+    renamed = ssa.ssa_variable_to_expr
+    copies = {}
+    for blk in ssa.graph.blocks.values():
+        for ab in blk:
+            for dst, src in ab.items():
+                if dst.is_id() and src.is_id() and dst in renamed and src in renamed:
+                    copies[dst] = src
+    if not copies:
+        return 0
+    for x in list(copies):
+        y, seen = copies[x], {x}
+        while y in copies and y not in seen:
+            seen.add(y)
+            y = copies[y]
+        copies[x] = y
+    folded = 0
+    for loc, blk in list(ssa.graph.blocks.items()):
+        abs_ = []
+        for ab in blk:
+            new = {}
+            for dst, src in ab.items():
+                ndst = ExprMem(dst.ptr.replace_expr(copies), dst.size) if dst.is_mem() else dst
+                nsrc = src if src.is_op("Phi") else src.replace_expr(copies)
+                folded += (ndst != dst) + (nsrc != src)
+                new[ndst] = nsrc
+            abs_.append(AssignBlock(new, ab.instr))
+        ssa.graph.blocks[loc] = IRBlock(blk.loc_db, loc, abs_)
+    return folded
+
+
+def check_graph(n, shape_idx, body_idx, cond_idx, alphabet, CONDS=CONDS, merge=False, fold=False):
     from miasm.analysis.ssa import SSADiGraph
     from miasm.analysis.outofssa import UnSSADiGraph
     from miasm.analysis.data_flow import DiGraphLivenessSSA
     from miasm.ir.ir import IRCFG
     shape = irgen.shapes(n)[shape_idx]
     case = {"n": n, "shape": shape_idx, "bodies": body_idx, "conds": cond_idx, "alphabet": alphabet, "condnames": CONDS,
-            "merge_irdst": merge}
-    desc = irgen.describe(shape, body_idx, cond_idx, alphabet, CONDS) + (" [IRDst set by the last AssignBlock of each body]" if merge else "")
+            "merge_irdst": merge, "copy_fold": fold}
+    desc = irgen.describe(shape, body_idx, cond_idx, alphabet, CONDS) + (" [IRDst set by the last AssignBlock of each body]" if merge else "") + (
+        " [SSA copies folded into their uses before out-of-SSA]" if fold else "")
     g0 = irgen.build(shape, body_idx, cond_idx, alphabet, CONDS, merge_irdst=merge)
     g = irgen.build(shape, body_idx, cond_idx, alphabet, CONDS, merge_irdst=merge)
     A = g.arch
-    info = {"phi": False, "skipped_states": 0, "states": 0}
+    info = {"phi": False, "skipped_states": 0, "states": 0, "folded": 0}
     vs = []
     try:
         ssa = SSADiGraph(g.ircfg)
@@ -150,6 +188,13 @@ def check_graph(n, shape_idx, body_idx, cond_idx, alphabet, CONDS=CONDS, merge=F
     if vs:
         return vs, info
     var2orig = dict(ssa.ssa_variable_to_expr)
+    if fold:
+        info["folded"] = ref_copy_fold(ssa)
+        vs += structural(g, ssa, g.head, desc + " (harness: reference copy folding)", case)
+        if vs:
+            for v in vs:
+                v["sig"] = "harness:" + v["sig"]
+            return vs, info
     try:
         g.lifter.ssa_var = dict(var2orig)
         lv = DiGraphLivenessSSA(ssa.graph)
@@ -205,13 +250,14 @@ def _st(st):
 
 
 def _shard(args):
-    n, maxlen, alphabet, CONDS, lo, hi = args
+    n, maxlen, alphabet, CONDS, lo, hi = args[:6]
+    fold = len(args) > 6 and args[6]
     shapes = irgen.shapes(n)
     bl = irgen.bodies(alphabet, maxlen)
     cnt = nt = 0
     vs = []
     sigs = {}
-    skipped = states_run = 0
+    skipped = states_run = nfold = 0
     sample = None
     for si in range(lo, hi):
         shape = shapes[si]
@@ -220,7 +266,8 @@ def _shard(args):
             for cond_idx, merge in itertools.product(itertools.product(*[range(k) for k in ncond]),
                                                      (False, True) if any(body_idx) else (False,)):
                 cnt += 1
-                v, info = check_graph(n, si, body_idx, cond_idx, alphabet, CONDS, merge)
+                v, info = check_graph(n, si, body_idx, cond_idx, alphabet, CONDS, merge, fold)
+                nfold += 1 if info.get("folded") else 0
                 skipped += info["skipped_states"]
                 states_run += info["states"]
                 if info["phi"]:
@@ -231,7 +278,11 @@ def _shard(args):
                     sigs[x["sig"]] = sigs.get(x["sig"], 0) + 1
                     if sigs[x["sig"]] <= 3:
                         vs.append(x)
-    return cnt, nt, vs, sample, sigs, skipped, states_run
+    return cnt, nt, vs, sample, sigs, skipped, states_run, nfold
+
+
+ALPHA_FOLD = ["c=a", "a=a+4", "@[c]=b", "a=b"]
+ALPHA_FOLD_T = ["c=a", "a=a+4", "@[c]=b", "a=b", "r=@[c]", "swap"]
 
 
 def run(ctx):
@@ -240,12 +291,18 @@ def run(ctx):
     else:
         plan = [(1, 3, ALPHA_Q, CONDS), (2, 2, ALPHA_Q, CONDS), (2, 1, ALPHA_T, CONDS), (3, 1, ALPHA_Q, ["a"]),
                 (3, 1, ["a=b", "a=a+1", "swap"], CONDS), (4, 1, ["a=b", "swap"], ["a"])]
+    # copy-folded family: the same pipeline with the SSA copies folded into their uses (reference folding) before out-of-SSA
+    if ctx.quick:
+        plan_fold = [(1, 3, ALPHA_FOLD, ["a"]), (2, 2, ["c=a", "a=a+4", "@[c]=b"], ["a"])]
+    else:
+        plan_fold = [(1, 4, ALPHA_FOLD, CONDS), (1, 3, ALPHA_FOLD_T, ["a"]), (2, 2, ALPHA_FOLD, ["a"]), (3, 1, ALPHA_FOLD, ["a"])]
     shards = []
-    for n, maxlen, alphabet, conds in plan:
-        ns = len(irgen.shapes(n))
-        step = max(1, ns // 96)
-        for lo in range(0, ns, step):
-            shards.append((n, maxlen, alphabet, conds, lo, min(ns, lo + step)))
+    for fold, pl in ((False, plan), (True, plan_fold)):
+        for n, maxlen, alphabet, conds in pl:
+            ns = len(irgen.shapes(n))
+            step = max(1, ns // 96)
+            for lo in range(0, ns, step):
+                shards.append((n, maxlen, alphabet, conds, lo, min(ns, lo + step), fold))
     res = ctx.pmap(_shard, shards)
     sigcount = {}
     for r in res:
@@ -256,15 +313,17 @@ def run(ctx):
         "evaluations": sum(r[0] for r in res),
         "distinct_nontrivial": sum(r[1] for r in res),
         "state_runs": sum(r[6] for r in res),
+        "graphs_with_a_folded_copy": sum(r[7] for r in res),
         "state_runs_skipped_fuel": sum(r[5] for r in res),
         "violating_graphs_by_signature": sigcount,
         "samples": [r[3] for r in res if r[3]][:5],
         "exhaustive": True,
         "bounds": {"plan(blocks,max_assignments,alphabet,conditions)": [[n, l, a, c] for n, l, a, c in plan],
+                   "plan_copy_folded(blocks,max_assignments,alphabet,conditions)": [[n, l, a, c] for n, l, a, c in plan_fold],
                    "fuel_blocks": FUEL, "state_lattice": "a,b in {0,1,0xFFFFFFFF}, zf in {0,1}"},
     }
 
 
 def replay(case):
     return check_graph(case["n"], case["shape"], tuple(tuple(b) for b in case["bodies"]), tuple(case["conds"]), list(case["alphabet"]),
-                       list(case.get("condnames", CONDS)), bool(case.get("merge_irdst")))[0]
+                       list(case.get("condnames", CONDS)), bool(case.get("merge_irdst")), bool(case.get("copy_fold")))[0]
